@@ -512,4 +512,4 @@ def _obligations():
 
 
 def obligations():
-    return _obligations() + [constructors_obligation(['cryomotl.Motl', 'cryomotl.EmMotl']), labels_obligation("C08"), selectors_obligation("C08"), mutations_obligation("C08"), effects_obligation("C08"), plumbing_obligation("C08"), overrides_obligation("C08"), options_obligation("C08"), handlers_obligation("C08")]
+    return _obligations() + [constructors_obligation(['cryomotl.Motl', 'cryomotl.EmMotl']), labels_obligation("C08"), selectors_obligation("C08"), mutations_obligation("C08"), loopstate_obligation("C08"), effects_obligation("C08"), plumbing_obligation("C08"), overrides_obligation("C08"), options_obligation("C08"), handlers_obligation("C08")]
